@@ -443,6 +443,13 @@ func (w *walker) stmt(s ast.Stmt) {
 				}
 				if _, ok := obj.Type().Underlying().(*types.Struct); ok {
 					w.env[obj] = vStruct{root: &Root{Name: n.Name}}
+				} else if arr, ok := obj.Type().Underlying().(*types.Array); ok && arr.Len() >= 1 && arr.Len() <= 16 {
+					// var seq [3]uint32: a local array filled element by element (seq[i] = read) and stored as a whole
+					t := make(vTuple, arr.Len())
+					for k := range t {
+						t[k] = vConst{}
+					}
+					w.env[obj] = t
 				} else {
 					w.env[obj] = vConst{}
 				}
@@ -562,6 +569,25 @@ func (w *walker) assign(s *ast.AssignStmt) {
 					_ = o // kept in env; reported only if it reaches the wire
 				}
 				continue
+			}
+		}
+		// seq[k] = v on a local array (k a constant here: a literal, or the index of a loop being unrolled)
+		if ix, isIx := l.(*ast.IndexExpr); isIx {
+			if id, isID := ast.Unparen(ix.X).(*ast.Ident); isID {
+				if obj := w.info().Uses[id]; obj != nil {
+					if tup, isTup := w.env[obj].(vTuple); isTup {
+						if _, isArr := obj.Type().Underlying().(*types.Array); isArr {
+							if kv, isK := w.eval(ix.Index).(vConst); isK && kv.V != nil && kv.V.Kind() == constant.Int {
+								if k, exact := constant.Int64Val(kv.V); exact && k >= 0 && int(k) < len(tup) {
+									nt := append(vTuple{}, tup...)
+									nt[k] = v
+									w.env[obj] = nt
+									continue
+								}
+							}
+						}
+					}
+				}
 			}
 		}
 		lv := w.eval(l)
